@@ -405,6 +405,8 @@ def run_case(case, vector):
                 stats["faults_fired"][fk[0]] += 1
                 if fk[3] == "SimCancel":
                     stats["faults_fired"]["cancel"] = stats["faults_fired"].get("cancel", 0) + 1
+                if fk[3] == "Reenter":
+                    stats["faults_fired"]["reenter"] = stats["faults_fired"].get("reenter", 0) + 1
         for r in out:
             if r[0] == "exc":
                 stats["raised"] += 1
